@@ -180,6 +180,19 @@ CHECKS["C17"] = dict(engine="bytes-tls", ref="4 (Engine BYTES, C17)",
          "BrokenResourceError when standard_compatible, EndOfStream otherwise, never the other way round; with a bit flip never "
          "wrong plaintext; no hang. Exploration level.")
 
+CHECKS["C18"] = dict(engine="bytes-sockets", ref="4 (Engine BYTES, C18)",
+    technique="deterministic simulation with fault injection: real anyio socket streams (and the real asyncio selector "
+              "transport) over a simulated kernel with bounded buffers, seeded short reads/writes, spurious EAGAIN, in-flight "
+              "delays and readiness order; byte-stream, EOF/close, busy and back-pressure oracles",
+    text="TCP-like ends (real StreamProtocol + SocketStream on the real _SelectorSocketTransport) and UNIX-like ends (real "
+         "UNIXSocketStream on the raw socket) in all four pairings over SimSockets with 1..4096-byte kernel buffers. Both ends "
+         "write (1..5000-byte messages) and read (max_bytes from 1, pauses so that buffers fill and writers block) at once; ends "
+         "by send_eof and/or close; probes for a second concurrent user of a direction, use after local close and closing while "
+         "the own reader is blocked. Oracles: received bytes == sent bytes in order (prefix if the writer was cut off by the "
+         "peer's close), 1 <= len(chunk) <= max_bytes, EOF only after everything sent, ClosedResourceError after local close "
+         "within 4 loop cycles (never blocking), BusyResourceError for the second user, send() returns with an empty user-space "
+         "write buffer (back-pressure), no deadlock / busy loop. Exploration level.")
+
 NOT_YET = "check not built yet in this snapshot of /verif (work in progress; see DESIGN.md section 4 for the plan)"
 
 
@@ -204,7 +217,7 @@ def main():
     engines = {}
     for pid, c in CHECKS.items():
         engines.setdefault(c["engine"], []).append(pid)
-    paths = {"sync-permits": "engines/permits.py", "sc": "engines/sc.py", "sync-conditions": "engines/conds.py", "sync-checkpoints": "engines/checkpoints.py", "mem": "engines/mem.py", "sc-deadlines": "engines/deadlines.py", "func-itertools": "engines/func_iter.py", "func-lru": "engines/func_lru.py", "bytes-wrappers": "engines/bytes_buffered.py", "bytes-tls": "engines/bytes_tls.py"}
+    paths = {"sync-permits": "engines/permits.py", "sc": "engines/sc.py", "sync-conditions": "engines/conds.py", "sync-checkpoints": "engines/checkpoints.py", "mem": "engines/mem.py", "sc-deadlines": "engines/deadlines.py", "func-itertools": "engines/func_iter.py", "func-lru": "engines/func_lru.py", "bytes-wrappers": "engines/bytes_buffered.py", "bytes-tls": "engines/bytes_tls.py", "bytes-sockets": "engines/bytes_sock.py"}
     try:
         hooks = [l.split()[0] for l in subprocess.run(
             ["git", "-C", "/repo", "log", "--format=%h %s", "--grep=^hook:"], capture_output=True, text=True
